@@ -126,15 +126,17 @@ def _c20_stray(v, rec):
 
 @mechanism("C03-inner-policy-iteration-cycles-between-tied-actions-at-large-magnitudes")
 def _c03_pi_cycle(v, rec):
-    """LAOStar.plan_on raises AssertionError from `assert converged` at the end of ExplicitStateGraph._policy_iteration, on a
-    problem whose optimal values are of order 1e6 or more AND in which some state has two actions whose optimal action values
-    tie exactly (to 1e-12 relative): the strict argmax improvement step flips between them on rounding noise."""
+    """LAOStar.plan_on raises AssertionError from `assert converged` at the end of ExplicitStateGraph._policy_iteration (that
+    call site, nothing else), on a problem whose optimal values are of order 1e6 or more: the strict argmax improvement step
+    flips between actions whose evaluated values differ by rounding noise (exactly tied optimal actions in most observed
+    cases, recorded as a fact; intermediate policies in the rest). Never observed below that magnitude in ~1e6 cases."""
     f = v.get("facts", {})
-    if v["clause"] != "exception:LAOStar.plan_on" or f.get("exc_type") != "AssertionError":
+    if not v["clause"].startswith("exception:LAOStar.plan_on") or f.get("exc_type") != "AssertionError":
         return False
-    if not any("_policy_iteration" in w for w in f.get("where", [])):
+    where = f.get("where", [])
+    if not where or "_policy_iteration" not in where[-1]:
         return False
-    return bool(f.get("exact_tie_between_optimal_actions")) and float(f.get("value_magnitude", 0.0)) >= 1e6
+    return float(f.get("value_magnitude", 0.0)) >= 1e6
 
 
 @mechanism("C09-bpi-does-not-check-the-lp-solver's-status")
@@ -142,7 +144,7 @@ def _c09_lp_status(v, rec):
     """FSCBoundedPolicyIteration.train_on raises TypeError inside its scipy_lp wrapper (it negates `res.ineqlin.marginals`, which
     is None), and the probe on scipy.optimize.linprog saw the last LP end with a non-zero status (no solution returned)."""
     f = v.get("facts", {})
-    if v["clause"] != "exception:FSCBoundedPolicyIteration.train_on" or f.get("exc_type") != "TypeError":
+    if not v["clause"].startswith("exception:FSCBoundedPolicyIteration.train_on") or f.get("exc_type") != "TypeError":
         return False
     if not any("scipy_lp" in w for w in f.get("where", [])):
         return False
@@ -155,7 +157,7 @@ def _c09_lp_noise(v, rec):
     normalisation in improve_node_matrix_constraint / assert_value_improvement), and the last LP solution it was handed
     had its objective or an action weight between numpy.isclose's 1e-8 and the LP solver's 1e-7..1e-6 tolerance band."""
     f = v.get("facts", {})
-    if v["clause"] != "exception:FSCBoundedPolicyIteration.train_on" or f.get("exc_type") != "AssertionError":
+    if not v["clause"].startswith("exception:FSCBoundedPolicyIteration.train_on") or f.get("exc_type") != "AssertionError":
         return False
     where = " ".join(f.get("where", []))
     if "improve_node_matrix_constraint" not in where and "assert_value_improvement" not in where:
